@@ -168,6 +168,8 @@ type World struct {
 	Projects []*types.Project
 
 	Clients []*SimClient
+	// ActorNames maps every actor id ever handed out to "c<slot>" / "c<slot>.<gen>".
+	ActorNames map[string]string
 
 	Stats  *Stats
 	Log    []string
@@ -206,7 +208,7 @@ func (w *World) logf(format string, a ...any) {
 
 // NewWorld builds generation 1 of the server over a fresh memdb.
 func NewWorld(cfg *RunConfig) (*World, error) {
-	w := &World{Cfg: cfg, Stats: newStats(), tasks: map[string]*taskInfo{}}
+	w := &World{Cfg: cfg, Stats: newStats(), tasks: map[string]*taskInfo{}, ActorNames: map[string]string{}}
 	w.ctx, w.cancel = context.WithCancel(context.Background())
 	curWorld = w
 	if err := w.startGeneration(); err != nil {
